@@ -17,7 +17,8 @@ correspondence: (server) real Falcon apps from make_wsgi_app around authenticato
 oracle        : the property's own clauses evaluated on the real responses / real client results, independent of the model.
 
 Readings adopted where the statement leaves room
-  * "the client asked for HTML"  = the Accept header contains the substring ``text/html`` (spec 4.2).
+  * "the client asked for HTML"  = the Accept header contains the substring ``text/html`` (spec 4.2); that is what the model
+    and the theorems say.  The oracle on the real responses is lenient about case (``TEXT/HTML`` may be answered either way).
   * "closed set" = the six codes of docs/unauthorized-spec.md section 3 (read from the tree under test) -- the AuthReason
     members are regenerated and tied to the same list.
   * "Chains report missing_credential only when every alternative saw none": an *alternative* is a chain link that was
@@ -447,7 +448,7 @@ def run(ctx: Any) -> None:
 
             # ---------------- property oracle on the real response (independent of the model)
             status = obs["status"]
-            wants = accept is not None and "text/html" in accept
+            wants = accept is not None and "text/html" in accept.lower()  # lenient: media types are case-insensitive
             top = S.describe_exc(top_auth, req)
             del S.CONSULTED[:]
             if top[0] in ("af", "ve", "pe") and status != 401:
